@@ -482,6 +482,7 @@ var c08Variants = []starVariant{
 	{Idx: 3, Reuse: false, Auth: true},
 	{Idx: 4, Reuse: true, Auth: false, SvcChurn: true},
 	{Idx: 5, Reuse: false, Auth: true, SvcChurn: true},
+	{Idx: 6, Reuse: true, Auth: true, V6Internal: true},
 }
 
 func checkC08(r *mon.Run) {
